@@ -91,9 +91,15 @@ def classStep (st : TState) (k : ClassDecl) : TState :=
   let mix : List (Nat × Bool) := ovlds.tail.filter (·.2)
   let push (st : TState) (a : Attr) (h : Bool) : TState := { st with attr := st.attr ++ [a], hasF := st.hasF ++ [h] }
   if usesMC && !mix.isEmpty then
-    -- `__prepare__`: copy of the first base's function with the flagged ones mixed in; plain functions registered
-    let (st, pre) := st.create ((ovlds.head?.map (·.1)).toList ++ mix.map (·.1))
-    let st := values.foldl (fun st v => match v with | .plain d => st.emit (.register pre d) | _ => st) st
+    -- `__prepare__`: copy of the first base's function with the flagged ones mixed in, then the plain functions of
+    -- the bases, each as a fresh function of its own (since the `fix:` for finding D42 they are mixed in like the
+    -- overloaded ones; they used to be registered on the merged function itself)
+    let (st, plainNodes) := values.foldl (fun (acc : TState × List Nat) v => match v with
+      | .plain d =>
+        let (st', n) := acc.1.create []
+        (st'.emit (.register n d), acc.2 ++ [n])
+      | _ => acc) (st, [])
+    let (st, pre) := st.create ((ovlds.head?.map (·.1)).toList ++ mix.map (·.1) ++ plainNodes)
     match own, k.extend with
     | d :: rest, true =>
       let (st, v) := st.create []
